@@ -1,5 +1,514 @@
-/- C09 — property theorems (to be written). -/
-import SoundeventModel.Basic
+/-
+  C09 — Evaluation metrics are what their terms say, in all four tasks.
+  Property theorems only (helper lemmas live in Proofs/Lemmas/Metrics.lean).
+-/
+import SoundeventModel.Metrics
+import Proofs.Lemmas.Metrics
 namespace SE.Proofs.C09
+open SE SE.Metrics
+
+/-- a table that passes the two regenerated checks has pairwise distinct labels and names,
+    and every row carries the name and the label of the term that names its function -/
+theorem C09_table_sound (t : List Row) (hd : TermsDistinct t = true) (hm : TermMatchesFunction t = true) :
+    (t.map (·.termLabel)).Nodup ∧ (t.map (·.termName)).Nodup ∧
+    ∀ r ∈ t, ∃ m : Metric, m.fn = r.fn ∧ r.termName = m.termName ∧ r.termLabel = m.label := by
+  unfold TermsDistinct at hd
+  simp only [Bool.and_eq_true, decide_eq_true_eq] at hd
+  refine ⟨hd.1, hd.2, ?_⟩
+  intro r hr
+  unfold TermMatchesFunction at hm
+  rw [List.all_eq_true] at hm
+  have h := hm r hr
+  cases hf : Metric.ofFn r.fn with
+  | none => simp [hf] at h
+  | some m =>
+    simp only [hf, Bool.and_eq_true, beq_iff_eq] at h
+    refine ⟨m, ?_, h.1, h.2⟩
+    unfold Metric.ofFn at hf
+    have := List.find?_some hf
+    simpa using this
+
+/-- the function name identifies the metric kind -/
+private theorem ofFn_fn (m : Metric) : Metric.ofFn m.fn = some m := by cases m <;> decide
+
+/-- when the code's table lists the same functions as the model's driver and passes
+    `TermMatchesFunction`, the labels (and names) the code attaches are exactly the ones the
+    model attaches, in the same order -/
+theorem C09_labels_of_table (task : Task) (lvl : Level) (t : List Row)
+    (ha : TableAgrees task lvl t = true) (hm : TermMatchesFunction t = true) :
+    t.map (·.termLabel) = (taskMetrics task lvl).map (·.label) := by
+  unfold TableAgrees at ha
+  have ha' : t.map (·.fn) = (taskMetrics task lvl).map (·.fn) := by simpa using ha
+  clear ha
+  generalize taskMetrics task lvl = ms at ha'
+  unfold TermMatchesFunction at hm
+  induction t generalizing ms with
+  | nil => cases ms with
+    | nil => rfl
+    | cons m ms => simp at ha'
+  | cons r t ih =>
+    cases ms with
+    | nil => simp at ha'
+    | cons m ms =>
+      simp only [List.map_cons, List.cons.injEq] at ha'
+      simp only [List.all_cons, Bool.and_eq_true] at hm
+      have h1 := hm.1
+      rw [ha'.1, ofFn_fn] at h1
+      simp only [Bool.and_eq_true, beq_iff_eq] at h1
+      simp only [List.map_cons, List.cons.injEq]
+      exact ⟨h1.2, ih hm.2 ms ha'.2⟩
+
+/-- the model's own driver tables have pairwise distinct labels at every level of every task -/
+theorem C09_model_tables_distinct (task : Task) (lvl : Level) :
+    ((taskMetrics task lvl).map (·.label)).Nodup := by
+  cases task <;> cases lvl <;> decide
+
+/-! ### the result does not depend on the order of the evaluated items / clips -/
+
+theorem C09_perm_accuracy (C : Nat) {xs ys : List Item} (h : xs.Perm ys) : accuracy C xs = accuracy C ys :=
+  accuracy_perm C h
+
+theorem C09_perm_balanced_accuracy (C : Nat) {xs ys : List Item} (h : xs.Perm ys) :
+    balancedAccuracy C xs = balancedAccuracy C ys := balancedAccuracy_perm C h
+
+theorem C09_perm_top_k (k C : Nat) {xs ys : List Item} (h : xs.Perm ys) : topK k C xs = topK k C ys :=
+  topK_perm k C h
+
+/-- average precision is a function of the multiset of (label, score) pairs -/
+theorem C09_perm_average_precision {xs ys : Labelled} (h : xs.Perm ys) :
+    averagePrecision xs = averagePrecision ys := averagePrecision_perm h
+
+theorem C09_perm_mean_average_precision (C : Nat) {xs ys : List Item} (h : xs.Perm ys) :
+    meanAveragePrecision C xs = meanAveragePrecision C ys := meanAveragePrecision_perm C h
+
+theorem C09_perm_mean_average_precision_multilabel (C : Nat) {xs ys : List MLItem} (h : xs.Perm ys) :
+    meanAveragePrecisionML C xs = meanAveragePrecisionML C ys := meanAveragePrecisionML_perm C h
+
+/-- every run-level metric of a single-label task at once (errors included) -/
+theorem C09_perm_run_metrics (C : Nat) {xs ys : List Item} (h : xs.Perm ys) (ms : List Metric) :
+    features ms (runMetricSL C xs) = features ms (runMetricSL C ys) := by
+  have : runMetricSL C xs = runMetricSL C ys := by
+    funext m
+    cases m <;> simp only [runMetricSL]
+    · rw [balancedAccuracy_perm C h]
+    · rw [accuracy_perm C h]
+    · rw [topK_perm 3 C h]
+    · exact meanAveragePrecision_perm C h
+  rw [this]
+
+theorem C09_perm_mean {xs ys : List Rat} (h : xs.Perm ys) : mean xs = mean ys := mean_perm h
+
+/-- the overall score does not depend on the order of the clip evaluations -/
+theorem C09_perm_overall_score {xs ys : List ClipOut} (h : xs.Perm ys) : overallScore xs = overallScore ys := by
+  unfold overallScore
+  have hp := h.filterMap (·.score)
+  have he : (xs.filterMap (·.score)).isEmpty = (ys.filterMap (·.score)).isEmpty := by
+    rw [Bool.eq_iff_iff, List.isEmpty_iff_length_eq_zero, List.isEmpty_iff_length_eq_zero, hp.length_eq]
+  simp only [he, mean_perm hp]
+
+/-- permuting the two clip lists (clip ids of the annotations pairwise distinct) permutes the
+    evaluated pairs, hence the items every run-level metric is computed over -/
+theorem C09_perm_pair_clips {α β} {preds preds' : List (Nat × α)} {anns anns' : List (Nat × β)}
+    (hp : preds.Perm preds') (ha : anns.Perm anns') (hn : (anns.map (·.1)).Nodup) :
+    (pairClips preds anns).Perm (pairClips preds' anns') := by
+  unfold pairClips
+  have : (fun p : Nat × α => (lookupLast p.1 anns).map (fun a => (p.1, a, p.2))) =
+         (fun p : Nat × α => (lookupLast p.1 anns').map (fun a => (p.1, a, p.2))) := by
+    funext p; rw [lookupLast_perm ha hn]
+  rw [this]
+  exact hp.filterMap _
+
+/-! ### ranges -/
+
+theorem C09_range_accuracy (C : Nat) (xs : List Item) : 0 ≤ accuracy C xs ∧ accuracy C xs ≤ 1 :=
+  accuracy_range C xs
+
+theorem C09_range_top_k (k C : Nat) (xs : List Item) : 0 ≤ topK k C xs ∧ topK k C xs ≤ 1 := topK_range k C xs
+
+theorem C09_range_balanced_accuracy (C : Nat) (xs : List Item) :
+    0 ≤ balancedAccuracy C xs ∧ balancedAccuracy C xs ≤ 1 := balancedAccuracy_range C xs
+
+theorem C09_range_average_precision (xs : Labelled) : 0 ≤ averagePrecision xs ∧ averagePrecision xs ≤ 1 :=
+  averagePrecision_range xs
+
+theorem C09_range_mean_average_precision (C : Nat) (xs : List Item) (v : Rat)
+    (h : meanAveragePrecision C xs = some v) : 0 ≤ v ∧ v ≤ 1 := by
+  unfold meanAveragePrecision at h
+  split at h
+  · cases h
+  · cases h; exact macroAP_range _ _
+
+theorem C09_range_mean_average_precision_multilabel (C : Nat) (xs : List MLItem) :
+    0 ≤ meanAveragePrecisionML C xs ∧ meanAveragePrecisionML C xs ≤ 1 := macroAP_range _ _
+
+theorem C09_range_jaccard (it : MLItem) : 0 ≤ jaccard it ∧ jaccard it ≤ 1 := jaccard_range it
+
+theorem C09_range_example_average_precision (it : MLItem) : 0 ≤ exampleAP it ∧ exampleAP it ≤ 1 :=
+  averagePrecision_range _
+
+/-- single-label scoring: non-negative scores summing to at most 1 -/
+theorem C09_range_true_class_probability (it : Item) (h0 : ∀ x ∈ it.row, 0 ≤ x) (h1 : it.row.sum ≤ 1) :
+    0 ≤ tcp it ∧ tcp it ≤ 1 := tcp_range it h0 h1
+
+theorem C09_range_mean {xs : List Rat} (h : ∀ x ∈ xs, 0 ≤ x ∧ x ≤ 1) : 0 ≤ mean xs ∧ mean xs ≤ 1 := mean_range h
+
+/-! ### average precision is what its term says -/
+
+/-- the step integral `Σₙ (Rₙ − Rₙ₋₁)·Pₙ` over the distinct thresholds equals the mean, over the
+    positive examples, of the precision at their own score -/
+theorem C09_average_precision_is_mean_precision (xs : Labelled) : averagePrecision xs = apMeanPrecision xs :=
+  averagePrecision_eq_mean_precision xs
+
+theorem C09_average_precision_no_positive (xs : Labelled) (h : ∀ x ∈ xs, x.1 = false) : averagePrecision xs = 0 := by
+  unfold averagePrecision
+  have : numPos xs = 0 := by
+    unfold numPos; rw [List.countP_eq_zero]; intro x hx; simp [h x hx]
+  simp [this]
+
+/-- a ranking that puts every positive example strictly above every negative one has AP = 1 -/
+theorem C09_average_precision_perfect (xs : Labelled) (hpos : ∃ x ∈ xs, x.1 = true)
+    (hsep : ∀ p ∈ xs, ∀ n ∈ xs, p.1 = true → n.1 = false → n.2 < p.2) : averagePrecision xs = 1 := by
+  rw [averagePrecision_eq_mean_precision]
+  unfold apMeanPrecision
+  have hP : numPos xs ≠ 0 := by
+    obtain ⟨x, hx, hx1⟩ := hpos
+    unfold numPos
+    exact Nat.pos_iff_ne_zero.mp (List.countP_pos_iff.mpr ⟨x, hx, hx1⟩)
+  simp only [hP, if_false]
+  have hone : ∀ x ∈ xs.filter (·.1), precisionAt xs x.2 = 1 := by
+    intro x hx
+    rw [List.mem_filter] at hx
+    unfold precisionAt
+    have hc : xs.countP (fun y => y.1 && decide (x.2 ≤ y.2)) = xs.countP (fun y => decide (x.2 ≤ y.2)) := by
+      apply List.countP_congr
+      intro y hy
+      cases hy1 : y.1 with
+      | true => simp
+      | false =>
+        have := hsep x hx.1 y hy hx.2 hy1
+        simp [not_le.mpr this]
+    rw [hc]
+    apply ratio_self
+    exact Nat.pos_iff_ne_zero.mp (List.countP_pos_iff.mpr ⟨x, hx.1, by simp⟩)
+  have hs : ((xs.filter (·.1)).map (fun x => precisionAt xs x.2)).sum = ((xs.filter (·.1)).length : Rat) := by
+    generalize xs.filter (·.1) = l at hone
+    induction l with
+    | nil => simp
+    | cons a l ih =>
+      simp only [List.map_cons, List.sum_cons, List.length_cons, Nat.cast_add, Nat.cast_one]
+      rw [hone a (by simp), ih (fun y hy => hone y (by simp [hy]))]
+      ring
+  rw [hs, ← numPos_eq_length_filter]
+  have : (numPos xs : Rat) ≠ 0 := by exact_mod_cast hP
+  exact div_self this
+
+/-! ### argmax and top-k conventions -/
+
+/-- numpy `argmax`: a maximal entry, and the first one -/
+theorem C09_argmax_first (row : List Rat) (hne : row ≠ []) :
+    argmaxFirst row < row.length ∧ (∀ j, j < row.length → row.getD j 0 ≤ row.getD (argmaxFirst row) 0) ∧
+      (∀ j, j < argmaxFirst row → row.getD j 0 < row.getD (argmaxFirst row) 0) := argmaxFirst_spec row hne
+
+/-- top-k accuracy is vacuously 1 when k is at least the number of classes (incl. 'none'):
+    a vocabulary of one or two tags always has top-3 accuracy 1 -/
+theorem C09_top_k_vacuous (k C : Nat) (items : List Item) (hne : items ≠ [])
+    (hv : ∀ it ∈ items, it.row.length = C ∧ trueIdx C it.y ≤ C) (hk : C + 1 ≤ k) : topK k C items = 1 := by
+  unfold topK
+  have : items.countP (hitK k C) = items.length := by
+    rw [List.countP_eq_length]
+    intro it hit
+    exact hitK_of_few_classes k C it (hv it hit).1 (hv it hit).2 hk
+  rw [this]
+  exact ratio_self (by simpa using hne)
+
+/-! ### the 'none' class -/
+
+/-- an unlabelled item is class `C` (the appended column) in the accuracy family: its
+    true-class score is the left-over mass `1 − Σ`, and it counts as correct exactly when every
+    class score is strictly below that mass -/
+theorem C09_none_class_accuracy_family (C : Nat) (row : List Rat) (hrow : row.length = C) :
+    trueIdx C none = C ∧ (withNone row).getD C 0 = 1 - row.sum ∧ tcp ⟨none, row⟩ = 1 - row.sum ∧
+    (correct C ⟨none, row⟩ = true ↔ ∀ j, j < C → row.getD j 0 < 1 - row.sum) := by
+  have hget : ∀ j, j < C → (withNone row).getD j 0 = row.getD j 0 := by
+    intro j hj
+    simp [withNone, List.getD_eq_getElem?_getD, List.getElem?_append_left (hrow ▸ hj)]
+  have hlast : (withNone row).getD C 0 = 1 - row.sum := by
+    simp [withNone, noneScore, List.getD_eq_getElem?_getD, ← hrow]
+  have hlen : (withNone row).length = C + 1 := by simp [withNone, hrow]
+  refine ⟨rfl, hlast, rfl, ?_⟩
+  have spec := argmaxFirst_spec (withNone row) (by simp [withNone])
+  simp only [correct, trueIdx, beq_iff_eq]
+  constructor
+  · intro h j hj
+    have := spec.2.2 j (by omega)
+    rw [h, hget j hj, hlast] at this
+    exact this
+  · intro h
+    by_contra hne
+    have hr : argmaxFirst (withNone row) < C := by
+      have := spec.1; omega
+    have h1 := spec.2.1 C (by omega)
+    rw [hlast, hget _ hr] at h1
+    exact absurd (h _ hr) (not_lt.mpr h1)
+
+/-- unlabelled items are left out of mean average precision -/
+theorem C09_none_class_dropped_from_map (C : Nat) (items : List Item) :
+    meanAveragePrecision C items = meanAveragePrecision C (items.filter (fun it => it.y.isSome)) := by
+  unfold meanAveragePrecision; rw [labelled_filter]
+
+/-- a labelled item's true-class probability is its score for that class -/
+theorem C09_true_class_probability (c : Nat) (row : List Rat) : tcp ⟨some c, row⟩ = row.getD c 0 := rfl
+
+/-- balanced accuracy is the mean recall over the classes (incl. 'none') that occur in the truth -/
+theorem C09_balanced_accuracy_is_mean_recall (C : Nat) (items : List Item) :
+    balancedAccuracy C items = mean ((presentClasses C items).map (recallOf C items)) ∧
+    ∀ c, c ∈ presentClasses C items ↔ c ≤ C ∧ ∃ it ∈ items, trueIdx C it.y = c := by
+  refine ⟨rfl, ?_⟩
+  intro c
+  simp only [presentClasses, List.mem_filter, List.mem_range, List.any_eq_true, beq_iff_eq]
+  constructor
+  · rintro ⟨h, it, hit, he⟩; exact ⟨by omega, it, hit, he⟩
+  · rintro ⟨h, it, hit, he⟩; exact ⟨by omega, it, hit, he⟩
+
+
+/-! ### which metric over which arrays, and scores are means -/
+
+/-- the clip evaluation `clip_classification` builds for one evaluated clip -/
+def ccClipOut (C : Nat) (x : Nat × CCAnn × CCPred) : ClipOut :=
+  { clip := x.1, metrics := [("True Class Probability", tcp (ccItem C x.2.1 x.2.2))],
+    score := some (tcp (ccItem C x.2.1 x.2.2)), mts := [] }
+
+/-- `clip_classification`: balanced accuracy, accuracy and top-3 accuracy over the encoded truth
+    and score row of every evaluated clip; per clip the true-class probability, which is also the
+    clip's score; the overall score is the mean of the clip scores -/
+theorem C09_clip_classification_spec (C : Nat) (preds : List (Nat × CCPred)) (anns : List (Nat × CCAnn))
+    (out : EvalOut) (h : clipClassification C preds anns = .ok out) :
+    let pairs := pairClips preds anns
+    let items := pairs.map (fun x => ccItem C x.2.1 x.2.2)
+    items ≠ [] ∧
+    out.metrics = [("Balanced Accuracy", balancedAccuracy C items), ("Accuracy", accuracy C items),
+                   ("Top 3 Accuracy", topK 3 C items)] ∧
+    out.clips = pairs.map (ccClipOut C) ∧
+    out.score = mean (items.map tcp) := by
+  intro pairs items
+  unfold clipClassification at h
+  have hclips : (pairClips preds anns).mapM (ccClip C) = .ok (pairs.map (ccClipOut C)) := by
+    apply mapM_total
+    intro x
+    simp [ccClip, ccClipOut, features, taskMetrics, itemMetricSL, Metric.label, List.mapM_cons, List.mapM_nil,
+      bind, Except.bind, pure, Except.pure]
+  have hfs : features (taskMetrics .clipClassification .run) (runMetricSL C items) =
+      .ok [("Balanced Accuracy", balancedAccuracy C items), ("Accuracy", accuracy C items),
+           ("Top 3 Accuracy", topK 3 C items)] := by
+    simp [features, taskMetrics, runMetricSL, Metric.label, List.mapM_cons, List.mapM_nil, bind, Except.bind,
+      pure, Except.pure]
+  simp only [hclips, bind, Except.bind] at h
+  by_cases he : items.isEmpty = true
+  · simp [items, pairs] at he
+    simp [he, throw, throwThe, MonadExceptOf.throw] at h
+  · have he' : (List.map (fun x => ccItem C x.2.1 x.2.2) (pairClips preds anns)).isEmpty = false := by
+      simpa [items, pairs] using he
+    simp only [he', Bool.false_eq_true, if_false, pure, Except.pure] at h
+    rw [show List.map (fun x => ccItem C x.2.1 x.2.2) (pairClips preds anns) = items from rfl, hfs] at h
+    simp only [Except.ok.injEq] at h
+    subst h
+    refine ⟨?_, rfl, rfl, ?_⟩
+    · intro e; simp [e] at he
+    · simp only [overallScore]
+      have hsc : (pairs.map (ccClipOut C)).filterMap (·.score) = items.map tcp := by
+        simp [items, ccClipOut, List.filterMap_map, Function.comp_def]
+      rw [show List.map (ccClipOut C) (pairClips preds anns) = pairs.map (ccClipOut C) from rfl, hsc]
+      have : (items.map tcp).isEmpty = false := by
+        simpa [List.isEmpty_iff] using (by intro e; simp [e] at he : items ≠ [])
+      simp [this]
+
+
+/-- the match `sound_event_classification` builds for one evaluated sound event -/
+def secMatchOutV (m : Nat × Nat × Item) : MatchOut :=
+  { src := some m.1, tgt := some m.2.1, affinity := 1, score := some (tcp m.2.2),
+    metrics := [("True Class Probability", tcp m.2.2)] }
+
+/-- the clip evaluation of one clip: no score when no sound event was evaluated, otherwise the
+    mean of the match scores -/
+def secClipOut (C : Nat) (x : Nat × List SEAnn × List SEPred) : ClipOut :=
+  let ms := secMatches C x.2.1 x.2.2
+  { clip := x.1, metrics := [],
+    score := if ms.isEmpty then none else some (mean (ms.map (fun m => tcp m.2.2))),
+    mts := ms.map secMatchOutV }
+
+theorem secClip_eq (C : Nat) (x : Nat × List SEAnn × List SEPred) :
+    secClip C x = .ok (secClipOut C x, (secMatches C x.2.1 x.2.2).map (·.2.2)) := by
+  unfold secClip
+  have hm : (secMatches C x.2.1 x.2.2).mapM secMatchOut = .ok ((secMatches C x.2.1 x.2.2).map secMatchOutV) := by
+    apply mapM_total
+    intro m
+    simp [secMatchOut, secMatchOutV, features, taskMetrics, itemMetricSL, Metric.label, List.mapM_cons,
+      List.mapM_nil, bind, Except.bind, pure, Except.pure]
+  simp only [hm, bind, Except.bind, pure, Except.pure, secClipOut, List.isEmpty_map]
+
+/-- `sound_event_classification`: the three accuracy metrics over the encoded truth and score row
+    of every evaluated sound event of every evaluated clip; per match the true-class
+    probability (also its score); clip score = mean of its match scores (none for an empty clip);
+    overall score = mean of the clip scores that exist -/
+theorem C09_sound_event_classification_spec (C : Nat) (preds : List (Nat × List SEPred))
+    (anns : List (Nat × List SEAnn)) (out : EvalOut) (h : soundEventClassification C preds anns = .ok out) :
+    let pairs := pairClips preds anns
+    let items := (pairs.map (fun x => (secMatches C x.2.1 x.2.2).map (·.2.2))).flatten
+    items ≠ [] ∧
+    out.metrics = [("Balanced Accuracy", balancedAccuracy C items), ("Accuracy", accuracy C items),
+                   ("Top 3 Accuracy", topK 3 C items)] ∧
+    out.clips = pairs.map (secClipOut C) ∧
+    out.score = overallScore out.clips := by
+  intro pairs items
+  unfold soundEventClassification at h
+  have hrs : (pairClips preds anns).mapM (secClip C) =
+      .ok (pairs.map (fun x => (secClipOut C x, (secMatches C x.2.1 x.2.2).map (·.2.2)))) :=
+    mapM_total _ _ (secClip_eq C) _
+  simp only [hrs, bind, Except.bind] at h
+  have hitems : (List.map (fun x => x.2) (pairs.map (fun x => (secClipOut C x, (secMatches C x.2.1 x.2.2).map (·.2.2))))).flatten
+      = items := by simp [items, List.map_map, Function.comp_def]
+  have hclips : List.map (fun x => x.1) (pairs.map (fun x => (secClipOut C x, (secMatches C x.2.1 x.2.2).map (·.2.2))))
+      = pairs.map (secClipOut C) := by simp [List.map_map, Function.comp_def]
+  rw [hitems, hclips] at h
+  have hfs : features (taskMetrics .soundEventClassification .run) (runMetricSL C items) =
+      .ok [("Balanced Accuracy", balancedAccuracy C items), ("Accuracy", accuracy C items),
+           ("Top 3 Accuracy", topK 3 C items)] := by
+    simp [features, taskMetrics, runMetricSL, Metric.label, List.mapM_cons, List.mapM_nil, bind, Except.bind,
+      pure, Except.pure]
+  by_cases he : items.isEmpty = true
+  · simp [he, throw, throwThe, MonadExceptOf.throw] at h
+  · simp only [he, Bool.false_eq_true, if_false, pure, Except.pure, hfs, Except.ok.injEq] at h
+    subst h
+    refine ⟨?_, rfl, rfl, rfl⟩
+    intro e; simp [e] at he
+
+/-- the clip evaluation `clip_multilabel_classification` builds for one evaluated clip, given its score -/
+def mlClipOut (C : Nat) (x : Nat × CCAnn × CCPred) (s : Rat) : ClipOut :=
+  { clip := x.1, score := some s, mts := [],
+    metrics := [("Jaccard Index", jaccard (mlItem C x.2.1 x.2.2)), ("Average Precision", exampleAP (mlItem C x.2.1 x.2.2))] }
+
+/-- `clip_multilabel_classification`: mean average precision over the indicator truth and score
+    row of every evaluated clip; per clip the Jaccard index and the average precision of that
+    clip's row; the overall score is the mean of the clip scores (the clip score itself,
+    `exp(-log_loss)`, is a parameter) -/
+theorem C09_clip_multilabel_spec (C : Nat) (preds : List (Nat × CCPred)) (anns : List (Nat × CCAnn))
+    (scores : List Rat) (out : EvalOut) (h : clipMultilabel C preds anns scores = .ok out)
+    (hlen : scores.length = (pairClips preds anns).length) :
+    let pairs := pairClips preds anns
+    let rows := pairs.map (fun x => mlItem C x.2.1 x.2.2)
+    rows ≠ [] ∧ 2 ≤ C ∧
+    out.metrics = [("Mean Average Precision", meanAveragePrecisionML C rows)] ∧
+    out.clips.map (·.metrics) = rows.map (fun r => [("Jaccard Index", jaccard r), ("Average Precision", exampleAP r)]) ∧
+    out.clips.map (·.score) = scores.map some ∧
+    out.score = mean scores := by
+  intro pairs rows
+  unfold clipMultilabel at h
+  by_cases he : (pairClips preds anns).isEmpty = true
+  · simp [he, throw, throwThe, MonadExceptOf.throw, bind, Except.bind] at h
+  by_cases hC : C ≤ 1
+  · simp [he, hC, throw, throwThe, MonadExceptOf.throw, bind, Except.bind, pure, Except.pure] at h
+  simp only [he, hC, Bool.false_eq_true, if_false, pure, Except.pure, bind, Except.bind] at h
+  have hcl : ((pairClips preds anns).zip scores).mapM (fun (x, s) => do
+        let fs ← features (taskMetrics .clipMultilabel .example) (itemMetricML (mlItem C x.2.1 x.2.2))
+        return ({ clip := x.1, metrics := fs, score := some s, mts := [] } : ClipOut)) =
+      .ok ((pairs.zip scores).map (fun (x, s) => mlClipOut C x s)) := by
+    apply mapM_total
+    rintro ⟨x, s⟩
+    simp [mlClipOut, features, taskMetrics, itemMetricML, Metric.label, List.mapM_cons, List.mapM_nil, bind, Except.bind,
+      pure, Except.pure]
+  simp only [bind, Except.bind, pure, Except.pure] at hcl
+  simp only [hcl] at h
+  have hfs : features (taskMetrics .clipMultilabel .run) (runMetricML C rows) =
+      .ok [("Mean Average Precision", meanAveragePrecisionML C rows)] := by
+    simp [features, taskMetrics, runMetricML, Metric.label, List.mapM_cons, List.mapM_nil, bind, Except.bind,
+      pure, Except.pure]
+  rw [show List.map (fun x => mlItem C x.2.1 x.2.2) (pairClips preds anns) = rows from rfl, hfs] at h
+  simp only [Except.ok.injEq] at h
+  subst h
+  have hne : pairs ≠ [] := by intro e; simp [pairs, e] at he
+  have hlen' : scores.length = pairs.length := hlen
+  have h1 : (pairs.zip scores).map Prod.fst = pairs := List.map_fst_zip (by omega)
+  have h2 : (pairs.zip scores).map Prod.snd = scores := List.map_snd_zip (by omega)
+  refine ⟨by simpa [rows] using hne, by omega, rfl, ?_, ?_, ?_⟩
+  · calc ((pairs.zip scores).map (fun x => mlClipOut C x.1 x.2)).map (·.metrics)
+        = ((pairs.zip scores).map Prod.fst).map (fun x =>
+            [("Jaccard Index", jaccard (mlItem C x.2.1 x.2.2)), ("Average Precision", exampleAP (mlItem C x.2.1 x.2.2))]) := by
+          simp [List.map_map, Function.comp_def, mlClipOut]
+      _ = _ := by rw [h1]; simp [rows, List.map_map, Function.comp_def]
+  · calc ((pairs.zip scores).map (fun x => mlClipOut C x.1 x.2)).map (·.score)
+        = ((pairs.zip scores).map Prod.snd).map some := by simp [List.map_map, Function.comp_def, mlClipOut]
+      _ = _ := by rw [h2]
+  · simp only [overallScore]
+    have hsc : ((pairs.zip scores).map (fun x => mlClipOut C x.1 x.2)).filterMap (·.score) = scores := by
+      calc ((pairs.zip scores).map (fun x => mlClipOut C x.1 x.2)).filterMap (·.score)
+          = (pairs.zip scores).map Prod.snd := by simp [List.filterMap_map, Function.comp_def, mlClipOut]
+        _ = scores := h2
+    rw [hsc]
+    have : scores ≠ [] := by
+      intro e; rw [e] at hlen'; simp at hlen'; exact hne (List.length_eq_zero_iff.mp hlen'.symm)
+    simp [List.isEmpty_iff, this]
+
+
+/-! ### an AOEF document keeps every metric -/
+
+/-- AOEF stores a metric list as a mapping keyed by the term's label.  With pairwise distinct
+    labels the mapping is injective: saving and loading returns the very same list of
+    `(label, value)` (C01's round trip then keeps every metric of an `Evaluation`, of its clip
+    evaluations and of their matches) -/
+theorem C09_survives_aoef (fs : Features) (h : (fs.map (·.1)).Nodup) : fromDict (toDict fs) = fs := by
+  unfold fromDict toDict
+  have := foldl_dictInsert fs [] h (by intro p hp; simp at hp)
+  simpa using this
+
+/-- what the three-times-*Balanced Accuracy* table of `sound_event_classification` did to its
+    metrics when saved: one entry survives, carrying the last value -/
+theorem C09_duplicate_labels_collapse (k : String) (a b c : Rat) :
+    fromDict (toDict [(k, a), (k, b), (k, c)]) = [(k, c)] := by
+  simp [fromDict, toDict, dictInsert]
+
+/-- every metric list the four task drivers produce has pairwise distinct labels, so the
+    above applies to all of them -/
+theorem C09_features_labels (ms : List Metric) (f : Metric → Option Rat) (fs : Features)
+    (h : features ms f = .ok fs) : fs.map (·.1) = ms.map (·.label) := by
+  unfold features at h
+  have := mapM_ok_forall₂ _ _ _ h
+  clear h
+  induction this with
+  | nil => rfl
+  | @cons m p ms' fs' hab _ ih =>
+    cases hf : f m with
+    | none => simp [hf] at hab
+    | some v =>
+      simp only [hf, Except.ok.injEq] at hab
+      subst hab
+      simp [ih]
+
+/-! ### non-vacuity: concrete instances of the hypotheses and conventions above -/
+
+-- first-wins argmax against last-wins top-k on a four-way tie: correct, yet not in the top 3
+example : correct 4 ⟨some 0, [1/4, 1/4, 1/4, 1/4]⟩ = true ∧ hitK 3 4 ⟨some 0, [1/4, 1/4, 1/4, 1/4]⟩ = false := by
+  decide +kernel
+-- an unlabelled item is correct iff the left-over mass beats every class
+example : correct 2 ⟨none, [1/4, 1/4]⟩ = true ∧ correct 2 ⟨none, [1/2, 1/4]⟩ = false := by decide +kernel
+-- average precision: scikit-learn's documentation example (0.1, 0.4, 0.35, 0.8 with truth 0, 0, 1, 1) = 0.8333…
+example : averagePrecision [(false, 1/10), (false, 4/10), (true, 35/100), (true, 8/10)] = 5/6 := by decide +kernel
+-- tied scores share one threshold
+example : averagePrecision [(true, 1/2), (false, 1/2)] = 1/2 := by decide +kernel
+example : averagePrecision [(false, 1/2), (false, 1/4)] = 0 := by decide +kernel
+-- mean average precision drops the unlabelled row and averages over all classes of the vocabulary
+example : meanAveragePrecision 2 [⟨some 0, [1/2, 1/4]⟩, ⟨none, [1/4, 1/2]⟩] = some (1/2) := by decide +kernel
+example : meanAveragePrecision 2 [⟨none, [1/4, 1/2]⟩] = none := by decide +kernel
+-- balanced accuracy averages recall over the classes present in the truth only
+example : balancedAccuracy 2 [⟨some 0, [1/2, 1/4]⟩, ⟨some 0, [1/4, 1/2]⟩, ⟨none, [0, 0]⟩] = 3/4 := by decide +kernel
+example : jaccard ⟨[true, false, true], [3/4, 3/4, 1/2]⟩ = 1/3 := by decide +kernel
+-- the hypothesis of `C09_survives_aoef` holds for the model's tables and fails for a duplicated label
+example : fromDict (toDict [("Accuracy", 1/2), ("Balanced Accuracy", 1/4)]) = [("Accuracy", 1/2), ("Balanced Accuracy", 1/4)] := by
+  decide +kernel
+-- `C09_perm_pair_clips`: hypotheses satisfiable
+example : pairClips [(3, "p3"), (1, "p1"), (7, "p7")] [(1, "a1"), (3, "a3"), (5, "a5")] = [(3, "a3", "p3"), (1, "a1", "p1")] := by
+  decide
+-- a task driver returns a value (hypothesis `… = .ok out` of the spec theorems)
+example : (clipClassification 2 [(0, ⟨[(some 0, 1/2)]⟩)] [(0, ⟨[some 0]⟩)]).toOption.map (·.score) = some (1/2) := by
+  decide +kernel
 
 end SE.Proofs.C09
